@@ -394,21 +394,9 @@ def _(p):
     from formulaic import model_matrix
     from oracle import contrasts_ref as ref
 
-    table = {
-        "C(A)": (ref.as_float(ref.treatment(3, 0)), ["x", "y", "z"]),
-        "C(A, contr.treatment(base='y'))": (ref.as_float(ref.treatment(3, 1)), ["x", "y", "z"]),
-        "C(A, contr.treatment('z'))": (ref.as_float(ref.treatment(3, 2)), ["x", "y", "z"]),
-        "C(A, contr.SAS)": (ref.as_float(ref.sas(3)), ["x", "y", "z"]),
-        "C(A, contr.sum)": (ref.as_float(ref.sum_(3)), ["x", "y", "z"]),
-        "C(A, contr.helmert)": (ref.as_float(ref.helmert(3)), ["x", "y", "z"]),
-        "C(A, contr.helmert(reverse=False, scale=True))": (ref.as_float(ref.helmert(3, False, True)), ["x", "y", "z"]),
-        "C(A, contr.diff)": (ref.as_float(ref.diff(3)), ["x", "y", "z"]),
-        "C(A, contr.diff(backward=False))": (ref.as_float(ref.diff(3, False)), ["x", "y", "z"]),
-        "C(A, contr.poly)": (ref.poly(3), ["x", "y", "z"]),
-        "C(A, levels=['z', 'x', 'y'])": (ref.as_float(ref.treatment(3, 0)), ["z", "x", "y"]),
-        "C(A, contr.sum, levels=['y', 'z', 'x', 'w'])": (ref.as_float(ref.sum_(4)), ["y", "z", "x", "w"]),
-        "C(A, contr.treatment, levels=['w', 'x', 'y', 'z'])": (ref.as_float(ref.treatment(4, 0)), ["w", "x", "y", "z"]),
-    }
+    from .c11_ground import pipeline_specs
+
+    table = {sp: (coding, lv) for sp, coding, lv in pipeline_specs()}
     coding, lv = table[p["spec"]]
     rows = ["x", "y", "z", "y", "x", "z", None]
     df = pandas.DataFrame({"A": pandas.Categorical(rows, categories=["x", "y", "z"]), "a": numpy.array(p["a"], dtype=float)})
